@@ -156,7 +156,7 @@ def check_closure_before_insert(P, r3):
     gens = [t for t in P.trait_impls.get(GEN_MODELS, []) if t in P.fns]
     for gid in gens:
         f = P.fns[gid]
-        ins = [c for c in f.calls if short_path(c.path) == "HashMap::insert" and "StructInfo" in " ".join(c.generics + [c.self_ty or ""])]
+        ins = [c for c in f.calls if (short_path(c.path) == "HashMap::insert" or c.name == "extend") and "StructInfo" in " ".join(c.generics + [c.self_ty or ""]) and c.bb in f.reach_blocks]
         dn = [c for c in f.calls if short_path(c.best) == "TypeCollector::discover_nested_dependencies"]
         def strip(o):
             while o[0] == "proj":
@@ -198,7 +198,14 @@ def check_closure_before_insert(P, r3):
                 r3.bad(V(r3.id, gid, "insert-without-closure", "types are inserted into the declared set without closing over their field types first", c.file, c.line))
                 continue
             # ... and what is inserted is the *output* of that closure (its `&mut` accumulator), not the seed set it started from
-            src = iterated_collection(c.args[1]) if len(c.args) > 1 else None
+            if c.name == "extend" and len(c.args) > 1:
+                # `declared.extend(closure_output.into_iter().filter_map(|name| lookup))`: the collection under the iterator adapters
+                o_ = strip(f.origin(c.args[1]))
+                while o_[0] == "call" and o_[1].args and o_[1].name in ("filter_map", "map", "filter", "into_iter", "iter", "cloned", "copied", "drain", "flat_map", "keys", "into_keys"):
+                    o_ = strip(f.origin(o_[1].args[0]))
+                src = ident(o_)
+            else:
+                src = iterated_collection(c.args[1]) if len(c.args) > 1 else None
             outs = [ident(f.origin(d.args[-1])) for d in doms if d.args]
             if src is not None and src in outs:
                 r3.ok("%s: the declared set receives the output of discover_nested_dependencies" % short_path(gid))
@@ -270,7 +277,7 @@ def check(ctx):
     for fid in sorted(reach):
         f = P.fns[fid]
         if not any(short_path(c.best) in ("CommandAnalyzer::extract_type_names", "TypeCollector::collect_referenced_types_from_structure") for c in f.calls) \
-                and not any(k.startswith(fid + "::{closure") and any(short_path(c.best) == "CommandAnalyzer::extract_type_names" for c in P.fns[k].calls) for k in P.fns):
+                and not any("::{closure" in k and any(short_path(c.best) == "CommandAnalyzer::extract_type_names" for c in P.fns[k].calls) for k in P.family(fid)):
             continue
         for c in f.calls:
             if c.trait in ("std::iter::Iterator", "std::iter::DoubleEndedIterator") and c.name in TRUNC:
@@ -280,7 +287,7 @@ def check(ctx):
               "BTreeSet::retain", "BTreeSet::remove", "BTreeSet::clear", "Vec::retain", "Vec::clear", "Vec::truncate", "Vec::drain"}
     for fid in sorted(reach):
         f = P.fns[fid]
-        scope = [f] + [P.fns[k] for k in P.fns if k.startswith(fid + "::{closure")]
+        scope = [f] + [P.fns[k] for k in P.family(fid) if "::{closure" in k]
         if "{closure" in fid:
             continue
         harvests = [c for g in scope for c in g.calls
@@ -452,7 +459,7 @@ def check(ctx):
             r3.ok("collect_used_types closes over nested dependencies")
         else:
             r3.bad(V(r3.id, f.id, "no-closure", "collect_used_types does not close over nested dependencies"))
-        clos = [P.fns[k] for k in P.fns if k.startswith(f.id + "::{closure")]
+        clos = [P.fns[k] for k in P.family(f.id) if "::{closure" in k]
         if any(any(short_path(c.path) == "HashSet::contains" for c in g.calls) for g in clos):
             r6.ok("collect_used_types keeps only names contained in the used set")
         else:
